@@ -541,7 +541,8 @@ class QRMon:
             else:
                 shape = "same-instant-starts" if self.starts_this_instant > 1 else "start-while-full"
             self.over_reported = True
-            self.hub.add("over-admission", self.cls, shape, f"in service {over} > limit {lim} after id {iid} started at t={t}ns", {"t_ns": t})
+            comp = "QueueDriver" if iid in self.overcommitted else self.cls
+            self.hub.add("over-admission", comp, shape, f"[{self.cls}] in service {over} > limit {lim} after id {iid} started at t={t}ns", {"t_ns": t})
         if self.sched is not None:
             t_s = t / 1e9
             edge = any(abs(t_s - x) < 1e-12 for x in self.sched.transition_times())
@@ -577,7 +578,8 @@ class QRMon:
             self.max_wait_with_limit2 = max(self.max_wait_with_limit2, depth)
         w = {"t_ns": t, "ledger": {k: v for k, v in n.items() if v}, "counters": list(c)}
         for oracle, shape, detail in self.audit.violations:
-            hub.add(oracle, self.audit.comp, "in-pipeline-" + shape, detail, w)
+            comp = self.audit.order_comp if (oracle in ("order", "peek") and self.audit.order_comp) else self.audit.comp
+            hub.add(oracle, comp, "in-pipeline-" + shape, detail, w)
         self.audit.violations.clear()
         if n["POPPED"]:
             ids = [i for i, s in self.state.items() if s == "POPPED"][:5]
@@ -632,7 +634,9 @@ class QRMon:
                         "stranded",
                         comp,
                         shape,
-                        f"[{self.cls}] {when}: depth={depth}, in service {ins}/{lim}, worker reports free capacity at the end of t={t}ns"
+                        f"[{self.cls}] {when}: depth={depth}, in service {ins}/{lim}, "
+                        + ("the schedule allows more at" if sched_free else "worker reports free capacity at")
+                        + f" the end of t={t}ns"
                         + (f" (next instant {new_ns}ns)" if new_ns is not None else ""),
                         w,
                     )
